@@ -262,7 +262,10 @@ impl JxlImageBuilder {
             }
         };
 
-        while !image.inner.end_of_image {
+        // Boxes may follow the codestream in a container; read those too.
+        while !image.inner.end_of_image
+            || image.reader.kind() == jxl_bitstream::BitstreamKind::Container
+        {
             let count = reader.read(&mut buf[buf_valid..])?;
             if count == 0 {
                 break;
